@@ -9,7 +9,7 @@ import sys
 
 import z3
 
-from . import shapely_lite, symmath
+from . import hashkeys, shapely_lite, symmath
 from .core import Sym, SymBool, SymInt, SymNum, SymReal, Unsupported, ctx
 from .npx import npx
 
@@ -111,6 +111,8 @@ def install(extra_numbers=True):
         d["float"] = sym_float
         d["int"] = sym_int
         d["round"] = sym_round
+        d["hash"] = hashkeys.sym_hash
+        d["frozenset"] = hashkeys.sym_frozenset
         if "math" in d:
             d["math"] = symmath
         if "shapely" in d and getattr(d["shapely"], "__name__", "") == "shapely":
@@ -125,5 +127,5 @@ def install(extra_numbers=True):
             if alias in d and getattr(d[alias], "__name__", "") == "numpy":
                 d[alias] = npx
         n += 1
-    INSTALLED.append(f"isinstance/float/int/round/math/np/shapely shadowed in {n} commonroad modules (shapely -> shapely-lite)")
+    INSTALLED.append(f"isinstance/float/int/round/hash/frozenset/math/np/shapely shadowed in {n} commonroad modules (shapely -> shapely-lite)")
     return n
